@@ -11,6 +11,7 @@ Definition src_env (e : env) : Prop := known_env e \/ iter_env e.
 Section All.
 Variable e : env.
 Hypothesis Hsrc : src_env e.
+Hypothesis Hfu : fused e.
 Variable progs : tid -> list op.
 Hypothesis Hp : wf_progs progs.
 Variable sched : list tid.
